@@ -13,6 +13,24 @@ COMMON_NOTE = ('Trusted: Coq 8.16.1 kernel (full .vo builds, vm_compute for fini
                'harness and oracles. Axioms: see Print Assumptions output copied into the evidence file.')
 
 CLAIMED = {
+    'C01': dict(
+        text='Theorems C01_denotes (Proofs/PrettyToks1-3.v, DocToks.v: structural induction over unbounded values) and '
+             'C01_roundtrip / C01_roundtrip_general (Proofs/EvalRT.v, NormFits.v): for every built-in value and every '
+             'indent / depth / max_seq_len / sort setting the document handed to the layout engine denotes in EVERY '
+             'layout (every flat_choice branch, every splitting of the string literals; width and ribbon only select '
+             'among layouts) the token sequence of the expression expr_of prescribes, and that expression evaluates, '
+             'under the target semantics PyEval.eval, to the same value with the same constructor at every position '
+             '(float literals by repr, inf/nan via float(...), 1-tuples with their comma, set()/frozenset([...]); dict '
+             'entries in insertion order or in the order sorted(keys, key=_AlwaysSortable) returned). The printer model '
+             'is compared with pformat character for character on bounded-exhaustive and random value trees over an '
+             'adversarial leaf alphabet x width/ribbon 1..200 x indent 1..8 x sort; the oracle evals the real output '
+             'with type-exact structural comparison (sign of zero, nan, dict order, ascending keys when sorting).',
+        design='5.3 C01', technique='Coq proofs (denotation lemma by induction on the value; evaluation round trip) + differential correspondence of the extracted printer model',
+        note=COMMON_NOTE + ' Fragment-level tokens: the theorems are stated on the token class each fragment carries '
+             '(annotation); that the concatenated text lexes/parses to those tokens and that PyEval.eval agrees with '
+             'CPython is validated by the oracle (tokenize/ast/eval on every generated output), not proved. The '
+             'contextual string document stands for one string value (C02_pieces). repr(float) and the order returned '
+             'by sorted() / set iteration are observed inputs of the model (DESIGN.md 3.3).'),
     'C04': dict(
         text='Theorem C04_membership (Proofs/Membership.v): for every document of the full algebra, every width and '
              'ribbon width, both strategies and any evaluator of contextual documents, the stream the model of '
